@@ -97,6 +97,13 @@ class R1Obs(Observer):
 
 
 MUTANTS = [
+    ("membership test skips level 1", "AegeanTools/regions.py",
+     "        pixelset = self.get_demoted()\n"
+     "        result = np.isin(pix, list(pixelset))\n",
+     "        result = np.zeros(len(pix), dtype=bool)\n"
+     "        for d in range(2, self.maxdepth+1):\n"
+     "            result |= np.isin(pix >> 2*(self.maxdepth-d),\n"
+     "                              list(self.pixeldict[d]))\n", "C08-R13"),
     ("membership look-up array kept between queries",
      "AegeanTools/regions.py",
      "        pixelset = self.get_demoted()\n"
@@ -243,6 +250,9 @@ def run(ctx):
     r8(ctx, ci)
     r9_cache_alias(ctx, ci, "C08-R9")
     r12_derived(ctx, ci, "C08-R12")
+    # membership answers come from the flattened set (shared with C09-R6)
+    from .c09 import membership_for
+    membership_for(ctx, ctx.prog, ci, "C08-R13")
     r11_add(ctx, ci)
     from .. import precision
     precision.rule(
